@@ -28,8 +28,8 @@ OUT_TYPES: Tuple[str, ...] = ("SELL", "GIFT", "DONATE", "FEE", "LOST", "STAKING"
 ALL_IN_TYPES: Tuple[str, ...] = ACQ_TYPES + EARN_TYPES
 METHODS: Tuple[str, ...] = ("fifo", "lifo", "hifo", "lofo")
 
-EXCHANGES: Tuple[str, ...] = ("Coinbase", "Kraken", "BlockFi", "Ledger")
-HOLDERS: Tuple[str, ...] = ("Alice", "Bob")
+EXCHANGES: Tuple[str, ...] = ("Coinbase", "Coinbase_Pro", "BlockFi", "Ledger")
+HOLDERS: Tuple[str, ...] = ("Pro_Bob", "Bob")  # with the exchanges above two different accounts share the join "Coinbase_Pro_Bob" (RP2 sorts balances by "<exchange>_<holder>")
 ASSETS: Tuple[str, ...] = ("AAA", "BBB", "CCC")
 
 # UTC offsets in minutes: -12, -9:30, -8, -3:30, 0, +5:30, +5:45, +9, +14 (negative offsets with non-zero minutes included)
